@@ -56,6 +56,7 @@ def main():
                 rc, out = sh("go run . " + os.environ.get("SEED_DEMO_ARGS", "").replace("{wt}", wt), cwd=dd, timeout=900)
                 shutil.rmtree(dd, ignore_errors=True)
                 return rc, out
+            os.makedirs(os.path.dirname(demo_dst), exist_ok=True)
             shutil.copy(demo_src, demo_dst)
             rc, out = sh("go test %s -vet=off -count=1 -run '%s' %s" % (os.environ.get("SEED_TEST_FLAGS", ""), runre, pkg), cwd=wt, timeout=900)
             os.remove(demo_dst)
